@@ -42,7 +42,7 @@ func litSets(r *RNG) [][][]byte {
 		return out
 	}
 	sets = append(sets,
-		mk("x"), mk("needle"), mk("ab"), mk("foo", "bar"), mk("foo", "fob", "fab"), mk("abc", "abd", "bbc", "bbd"),
+		mk("x"), mk("needle"), mk("ab"), mk("bz"), mk("zq"), mk("q8z"), mk("jxk"), mk("foo", "bar"), mk("foo", "fob", "fab"), mk("abc", "abd", "bbc", "bbd"),
 		mk("error", "warning", "fatal", "critical"), mk("ab", "abc"), mk("abc", "ab"), mk("aaa", "aab", "aba", "baa"),
 		mk("GET", "POST", "PUT", "DELETE", "HEAD", "PATCH", "TRACE", "CONNECT"),
 		mk("zzz", "abc", "c11", "c22", "c33", "c44", "c55", "c66", "abcd"), // priority inversion probe: "abc" (id 1) vs "abcd" (id 8, bucket 0)
@@ -212,6 +212,27 @@ func c16Body(r *Report, known []Finding) {
 				h3 := append(append([]byte(nil), h[:off]...), lits[lj][:k]...)
 				h3 = append(h3, lits[li]...)
 				hays = append(hays, h3)
+			}
+			// SWAR borrow neighbours on the scalar path (short haystack): a byte x of the literal directly followed by x^1 makes the
+			// word-at-a-time zero test mark a spurious candidate in the same 8-byte block as the real occurrence behind it
+			if off <= 16 {
+				for k := 0; k < len(lits[li]) && k < 8; k++ {
+					x := lits[li][k]
+					h4 := append(bytes.Repeat([]byte{'.'}, off), x, x^1)
+					h4 = append(h4, lits[li]...)
+					h4 = append(h4, "..."...)
+					hays = append(hays, h4)
+					h5 := append(bytes.Repeat([]byte{'.'}, off), x, x^1, '.')
+					h5 = append(h5, lits[li]...)
+					hays = append(hays, append(h5, lits[li]...))
+					// the literal with x^1 inserted behind its byte k (so that a byte-pair scan sees first byte, borrow artefact and
+					// second byte at the pair's distance), directly followed by the real occurrence
+					h6 := append(bytes.Repeat([]byte{'.'}, off), lits[li][:k+1]...)
+					h6 = append(h6, x^1)
+					h6 = append(h6, lits[li][k+1:]...)
+					h6 = append(h6, lits[li]...)
+					hays = append(hays, append(h6, "xxxxxxx"...))
+				}
 			}
 		}
 		hays = append(hays, nil, []byte("."), bytes.Repeat([]byte("."), 100))
